@@ -2,7 +2,7 @@
    depends only on the VALUE of its operands, not on their (coef, exp)
    representation; and the canonical form [dnorm] is unique per value. *)
 From Mpath.Model Require Import Base Dec.
-From Mpath.Proofs Require Import DecQ.
+From Mpath.Proofs Require Import DecQ DecMod.
 From Coq Require Import ZArith QArith Qpower Qabs Qfield Lia Lra List Morphisms.
 Import ListNotations.
 Local Open Scope Q_scope.
@@ -392,7 +392,167 @@ Qed.
 Lemma Forall2_deqv_refl l : Forall2 deqv l l.
 Proof. induction l; constructor; [apply deqv_refl | assumption]. Qed.
 
+
+(** * Division: DivRound is a function of the exact quotient *)
+Lemma Qcompare_scale_r a b p : 0 < p -> (a * p ?= b * p) = (a ?= b).
+Proof.
+  intros Hp. destruct (Qcompare_spec a b) as [H|H|H].
+  - apply Qeq_alt. rewrite H. reflexivity.
+  - apply Qlt_alt. apply Qmult_lt_r; assumption.
+  - apply Qgt_alt. apply Qmult_lt_r; assumption.
+Qed.
+
+Lemma Qcompare_inject a b : (inject_Z a ?= inject_Z b) = (a ?= b)%Z.
+Proof. unfold Qcompare, inject_Z. cbn [Qnum Qden]. rewrite !Z.mul_1_r. reflexivity. Qed.
+
+(** round [x * 10^prec] to an integer, half away from zero *)
+Definition qround (x : Q) (prec : Z) : Q :=
+  let y := x * pow10Q prec in
+  let t := Qtrunc y in
+  match (Qabs (y - inject_Z t) * 2 ?= 1) with
+  | Lt => inject_Z t * pow10Q (- prec)
+  | _ => if Qlt_le_dec x 0 then (inject_Z t - 1) * pow10Q (- prec) else (inject_Z t + 1) * pow10Q (- prec)
+  end.
+
+Lemma qround_comp x x' prec : x == x' -> qround x prec == qround x' prec.
+Proof.
+  intros H. unfold qround. cbv zeta.
+  assert (Ht : Qtrunc (x * pow10Q prec) = Qtrunc (x' * pow10Q prec)) by (rewrite H; reflexivity).
+  rewrite Ht.
+  assert (Hc : (Qabs (x * pow10Q prec - inject_Z (Qtrunc (x' * pow10Q prec))) * 2 ?= 1)
+             = (Qabs (x' * pow10Q prec - inject_Z (Qtrunc (x' * pow10Q prec))) * 2 ?= 1)) by (rewrite H; reflexivity).
+  rewrite Hc.
+  destruct (Qabs (x' * pow10Q prec - inject_Z (Qtrunc (x' * pow10Q prec))) * 2 ?= 1); try reflexivity;
+    destruct (Qlt_le_dec x 0) as [L|L], (Qlt_le_dec x' 0) as [L'|L']; try reflexivity; exfalso;
+    rewrite H in L; apply (Qlt_irrefl 0); first [exact (Qle_lt_trans _ _ _ L' L) | exact (Qle_lt_trans _ _ _ L L')].
+Qed.
+
+Lemma sgn_mul_neg a b : (Z.sgn a * Z.sgn b <? 0)%Z = (a * b <? 0)%Z.
+Proof.
+  rewrite <- Z.sgn_mul.
+  destruct (Z.lt_trichotomy (a * b) 0) as [H|[H|H]].
+  - rewrite (Z.sgn_neg _ H). symmetry. apply Z.ltb_lt. exact H.
+  - rewrite H. reflexivity.
+  - rewrite (Z.sgn_pos _ H). symmetry. apply Z.ltb_ge. lia.
+Qed.
+
+Theorem div_round_value a b prec :
+  coef b <> 0%Z -> dval (div_round a b prec) == qround (dval a / dval b) prec.
+Proof.
+  intros Hb.
+  destruct (quo_rem_shape a b prec Hb)
+    as (aa & bb & pa & pb & er & Hpa & Hpb & Haa & Hbb & Hqr & Hdiv & Hpow).
+  assert (Hbbnz : bb <> 0%Z) by nia.
+  assert (Hnz : ~ inject_Z bb == 0) by (apply inject_Z_nz; exact Hbbnz).
+  assert (Hsa : Z.sgn (coef a) = Z.sgn aa).
+  { rewrite Haa, Z.sgn_mul, (Z.sgn_pos pa Hpa). lia. }
+  assert (Hsb : Z.sgn (coef b) = Z.sgn bb).
+  { rewrite Hbb, Z.sgn_mul, (Z.sgn_pos pb Hpb). lia. }
+  assert (Habs : Z.abs bb = (Z.abs (coef b) * pb)%Z).
+  { rewrite Hbb, Z.abs_mul, (Z.abs_eq pb) by lia. reflexivity. }
+  assert (Hcmp : dcmp (mkDec (Z.abs (Z.rem aa bb) * 2) (er + prec)) (dabs b)
+                 = (Z.abs (Z.rem aa bb) * 2 ?= Z.abs bb)%Z).
+  { rewrite dcmp_spec, dval_mk.
+    assert (Hab : dval (dabs b) == inject_Z (Z.abs bb) * pow10Q (er + prec)).
+    { unfold dabs. rewrite dval_mk, Hpow, Habs, inject_Z_mult. ring. }
+    rewrite Hab. apply Qcompare_scale. apply pow10Q_pos. }
+  remember (dval a / dval b) as x eqn:Hx. clear Hx.
+  pose proof (pow10Q_pos (- prec)) as Hp.
+  (* y = aa / bb *)
+  assert (Hy : x * pow10Q prec == inject_Z aa / inject_Z bb).
+  { rewrite Hdiv, <- Qmult_assoc, <- pow10Q_plus.
+    replace (- prec + prec)%Z with 0%Z by lia. rewrite pow10Q_0. ring. }
+  assert (Ht : Qtrunc (x * pow10Q prec) = Z.quot aa bb).
+  { rewrite Hy. apply Qtrunc_div. exact Hbbnz. }
+  pose proof (Z.quot_rem' aa bb) as Hqr'.
+  assert (Haq : inject_Z aa == inject_Z bb * inject_Z (Z.quot aa bb) + inject_Z (Z.rem aa bb)).
+  { rewrite <- inject_Z_mult, <- inject_Z_plus, <- Hqr'. reflexivity. }
+  assert (Hf : (x * pow10Q prec - inject_Z (Z.quot aa bb)) * inject_Z bb == inject_Z (Z.rem aa bb)).
+  { rewrite Hy. unfold Qdiv. rewrite Haq. field. exact Hnz. }
+  assert (Hfa : Qabs (x * pow10Q prec - inject_Z (Z.quot aa bb)) * inject_Z (Z.abs bb) == inject_Z (Z.abs (Z.rem aa bb))).
+  { rewrite <- !Qabs_inject_Z, <- Qabs_Qmult, Hf. reflexivity. }
+  assert (Hbpos : 0 < inject_Z (Z.abs bb)).
+  { change 0 with (inject_Z 0). rewrite <- Zlt_Qlt. lia. }
+  assert (Hc : (Qabs (x * pow10Q prec - inject_Z (Z.quot aa bb)) * 2 ?= 1)
+             = (Z.abs (Z.rem aa bb) * 2 ?= Z.abs bb)%Z).
+  { rewrite <- (Qcompare_scale_r _ _ _ Hbpos), <- Qcompare_inject.
+    assert (E1 : Qabs (x * pow10Q prec - inject_Z (Z.quot aa bb)) * 2 * inject_Z (Z.abs bb)
+                 == inject_Z (Z.abs (Z.rem aa bb) * 2)).
+    { rewrite inject_Z_mult, <- Hfa. change (inject_Z 2) with 2. ring. }
+    rewrite E1, Qmult_1_l. reflexivity. }
+  (* the sign *)
+  assert (Hsgn : (Z.sgn aa * Z.sgn bb <? 0)%Z = true <-> x < 0).
+  { rewrite sgn_mul_neg, Z.ltb_lt.
+    assert (Hbb2 : 0 < inject_Z bb * inject_Z bb).
+    { rewrite <- inject_Z_mult. change 0 with (inject_Z 0). rewrite <- Zlt_Qlt. nia. }
+    assert (Hxq : x * (inject_Z bb * inject_Z bb) == inject_Z (aa * bb) * pow10Q (- prec)).
+    { rewrite Hdiv, inject_Z_mult. field. exact Hnz. }
+    split.
+    - intros Hlt. apply (Qmult_lt_r _ _ _ Hbb2). rewrite Hxq, Qmult_0_l.
+      setoid_replace 0 with (0 * pow10Q (- prec)) by ring. apply Qmult_lt_r; [exact Hp|].
+      change 0 with (inject_Z 0). rewrite <- Zlt_Qlt. exact Hlt.
+    - intros Hlt. apply (Qmult_lt_r _ _ _ Hbb2) in Hlt. rewrite Hxq, Qmult_0_l in Hlt.
+      setoid_replace 0 with (0 * pow10Q (- prec)) in Hlt by ring. apply Qmult_lt_r in Hlt; [|exact Hp].
+      change 0 with (inject_Z 0) in Hlt. rewrite <- Zlt_Qlt in Hlt. exact Hlt. }
+  assert (Hone : dval (mkDec 1 (- prec)) == pow10Q (- prec)).
+  { rewrite dval_mk. change (inject_Z 1) with 1. ring. }
+  unfold div_round. rewrite Hqr. cbv iota. cbn [coef dexp]. rewrite Hsa, Hsb, Hcmp.
+  unfold qround. cbv zeta. rewrite Ht, Hc.
+  assert (Helse :
+    dval (if (Z.sgn aa * Z.sgn bb <? 0)%Z
+          then dsub (mkDec (Z.quot aa bb) (- prec)) (mkDec 1 (- prec))
+          else dadd (mkDec (Z.quot aa bb) (- prec)) (mkDec 1 (- prec)))
+    == (if Qlt_le_dec x 0 then (inject_Z (Z.quot aa bb) - 1) * pow10Q (- prec)
+        else (inject_Z (Z.quot aa bb) + 1) * pow10Q (- prec))).
+  { destruct (Z.sgn aa * Z.sgn bb <? 0)%Z eqn:Es; destruct (Qlt_le_dec x 0) as [L|L].
+    - rewrite dsub_exact, Hone, dval_mk. ring.
+    - exfalso. apply (Qlt_irrefl 0). apply (Qle_lt_trans _ _ _ L). apply Hsgn. reflexivity.
+    - exfalso. apply Hsgn in L. discriminate L.
+    - rewrite dadd_exact, Hone, dval_mk. ring. }
+  destruct (Z.abs (Z.rem aa bb) * 2 ?= Z.abs bb)%Z.
+  - exact Helse.
+  - rewrite dval_mk. reflexivity.
+  - exact Helse.
+Qed.
+
+Theorem ddiv_resp a a' b b' : coef b <> 0%Z -> deqv a a' -> deqv b b' -> deqv (ddiv a b) (ddiv a' b').
+Proof.
+  intros Hb Ha Hbb. unfold deqv in *.
+  assert (Hb' : coef b' <> 0%Z).
+  { intros E. apply Hb. assert (Z : dis_zero b' = true) by (unfold dis_zero; rewrite E; reflexivity).
+    rewrite <- (dis_zero_resp b b' Hbb) in Z. unfold dis_zero in Z. apply Z.eqb_eq in Z. exact Z. }
+  unfold ddiv. rewrite (div_round_value a b _ Hb), (div_round_value a' b' _ Hb').
+  apply qround_comp. rewrite Ha, Hbb. reflexivity.
+Qed.
+
+Theorem truncate0_resp a b : deqv a b -> deqv (truncate0 a) (truncate0 b).
+Proof. unfold deqv. intros H. rewrite !truncate0_spec, H. reflexivity. Qed.
+
+Theorem dmod_resp a a' b b' : coef b <> 0%Z -> deqv a a' -> deqv b b' -> deqv (dmod a b) (dmod a' b').
+Proof.
+  intros Hb Ha Hbb. unfold dmod.
+  apply dsub_resp; [exact Ha|]. apply dmul_resp; [exact Hbb|]. apply truncate0_resp. apply ddiv_resp; assumption.
+Qed.
+
+Definition avg_of (l : list dec) : dec := match l with [] => dzero | [d] => d | d :: rest => davg d rest end.
+
+Lemma lrel_avg l1 l2 : lrel l1 l2 -> deqv (avg_of l1) (avg_of l2).
+Proof.
+  intros [_ [Hq Hl]].
+  destruct l1 as [|d1 [|e1 r1]], l2 as [|d2 [|e2 r2]]; try discriminate Hl.
+  - apply deqv_refl.
+  - unfold deqv. cbn [avg_of qsum] in *. rewrite !Qplus_0_r in Hq. exact Hq.
+  - unfold avg_of, davg.
+    assert (Hlen : length (e1 :: r1) = length (e2 :: r2)) by (cbn in Hl |- *; lia).
+    rewrite Hlen. apply ddiv_resp.
+    + cbn [coef]. lia.
+    + unfold deqv. rewrite !dsum_value. exact Hq.
+    + apply deqv_refl.
+Qed.
+
 Print Assumptions dnorm_unique.
+Print Assumptions ddiv_resp.
+Print Assumptions lrel_avg.
 Print Assumptions int_part_resp.
 Print Assumptions dis_integer_resp.
 Print Assumptions dmin_same.
